@@ -20,6 +20,16 @@ pub fn gen_case(r: &mut Rng, out: &mut String) {
         }
         return;
     }
+    if r.chance(1, 12) {
+        // the stream of the OTHER type
+        let g32 = super::stream::gen_stream(r, true);
+        let h = hex(&g32.bytes);
+        writeln!(out, "note 32-bit stream handed to the treemap decoder").unwrap();
+        writeln!(out, "tnew t0").unwrap();
+        writeln!(out, "tdeser chk t0 {}", h).unwrap();
+        writeln!(out, "tdump t0").unwrap();
+        writeln!(out, "tspec_decode {}", h).unwrap();
+    }
     let small = r.chance(5, 6);
     let g = stream64::gen_stream64(r, small, false);
     let reps = if g.bytes.len() > 20000 { 2 } else { 4 };
